@@ -291,12 +291,18 @@ def candidate_mutations(rng, schema, odd=False):
                 if alt:
                     v["cols"] = f0["cols"][:-1] + [rng.choice(alt)]
             else:
-                # same columns, another ON DELETE / ON UPDATE action
+                # same columns, another ON DELETE / ON UPDATE action: the key is *replaced* (a second key on the same
+                # columns would leave the property's class); not a catalogue mutation of C07, used for C06 pairs only
                 k = rng.choice(["ondelete", "onupdate"])
-                v[k] = rng.choice([a for a in ("CASCADE", "SET NULL", "RESTRICT") if a != f0.get(k)])
-            act = lambda a: None if a is None or a.upper() == "NO ACTION" else a.upper()
-            sig = lambda x: (tuple(x["cols"]), x["reftable"], tuple(x["refcols"]), act(x.get("ondelete")), act(x.get("onupdate")))
-            if all(sig(v) != sig(x) for x in t0["fks"]):
+                nv = rng.choice([a for a in ("CASCADE", "SET NULL", "RESTRICT") if a != f0.get(k)])
+
+                def chopt(s, k=k, nv=nv, nm=f0["name"]):
+                    next(i for i in tbl(s, tn)["fks"] if i["name"] == nm)[k] = nv
+
+                out.append(({"m": "changeFKOptions", "t": tn, "n": f0["name"], k: nv}, mutated(chopt)))
+                v = None
+            sig = lambda x: (tuple(x["cols"]), x["reftable"], tuple(x["refcols"]))
+            if v is not None and all(sig(v) != sig(x) for x in t0["fks"]):
                 f = v
     if f:
         out.append(({"m": "addFK", "t": tn, "n": f["name"], "fk": f}, mutated(lambda s: tbl(s, tn)["fks"].append(f))))
@@ -360,10 +366,24 @@ def default_plain(d):
     return str_plain(d["v"]) if d["kind"] == "str" else expr_plain(d["v"])
 
 
+def schema_wf(schema):
+    """the property's class for one schema: no two unique constraints / foreign keys of a table with
+    the same column signature, constraint names distinct per table"""
+    for t in schema["tables"]:
+        fsigs = [(tuple(f["cols"]), f["reftable"], tuple(f["refcols"])) for f in t["fks"]]
+        usigs = [tuple(sorted(u["cols"])) for u in t["uqs"]]
+        names = [o["name"] for k in ("ixs", "uqs", "fks") for o in t[k]]
+        if len(set(fsigs)) != len(fsigs) or len(set(usigs)) != len(usigs) or len(set(names)) != len(names):
+            return False
+    return True
+
+
 def schema_flags(schema):
     """which parts of the class a schema leaves: returns a set of tags (empty = inside the proved class)"""
     import re
     tags = set()
+    if not schema_wf(schema):
+        tags.add("constraints-same-signature")
     for t in schema["tables"]:
         for c in t["cols"]:
             d = c.get("default")
